@@ -114,11 +114,33 @@ class Workload(object):
 
         for f in (echo, mark, slow, boom, boomtype):
             srv.register_function(f)
+        self.notif_pool = None
         self.thread = None
         if family == "tcp":
             self.url = "http://127.0.0.1:%d" % srv.socket.getsockname()[1]
         else:
             self.url = None if family == "unix-abstract" else "unix+http://" + self.path
+
+    def add_notification_pool(self):
+        """The README set-up: a second, independent pool that runs the notifications"""
+        from jsonrpclib.threadpool import ThreadPool
+        self.notif_pool = ThreadPool(2, 1, logname="c12-notif")
+        self.notif_pool.start()
+        self.server.set_notification_pool(self.notif_pool)
+
+    def stop_notification_pool(self):
+        from vlib.netpeer import Hang, call_with_watchdog
+        if self.notif_pool is None:
+            return
+        pool, self.notif_pool = self.notif_pool, None
+        workers = list(pool._threads)
+        if not workers or not all(t.is_alive() for t in workers[:1]):
+            fail("C12/other-pool-disturbed", "stopping the server made the independent notification pool lose its workers (%d known, alive: %r)" % (
+                len(workers), [t.is_alive() for t in workers]))
+        try:
+            call_with_watchdog(pool.stop, 10, "stopping the notification pool")
+        except Hang:
+            raise Skip()
 
     def serve(self):
         self.thread = threading.Thread(target=self.server.serve_forever, kwargs={"poll_interval": 0.01}, daemon=True, name="c12-serve")
@@ -177,6 +199,11 @@ def stop_server(w, served, label):
                 _known_hang_seen[0] = True
                 fail(*KNOWN_HANG)
             fail("C12/stop-hangs:%s" % label, "stopping the server blocks in BaseServer.shutdown() while no thread is in serve_forever", {"stacks": h.stacks})
+        joining = [s for s in h.stacks.values() if "in stop" in s and "join" in s]
+        if joining and w.executing[0] == 0:
+            # no request is being executed and yet stop() still waits for a worker after the whole watchdog
+            fail("C12/stop-hangs:joining-idle-worker", "stopping the server is still joining a worker thread after %d s although no request is being executed" % (20 if served else 10),
+                 {"stacks": h.stacks})
         raise Skip()   # R11: inconclusive slowness
     if raised:
         fail("C12/stop-raised:%s" % type(raised[0]).__name__, "stopping the server raised %s: %s (listening socket %s)" % (
@@ -373,7 +400,8 @@ def client_run(w, ci, kinds, errors, sent_marks, sent_echo, timeout=30, sent_boo
 def workload_cases(draw):
     kind, pool = draw(st.sampled_from(SERVERS))
     clients = draw(st.lists(st.lists(st.sampled_from(KINDS), min_size=1, max_size=6), min_size=1, max_size=8))
-    return {"kind": kind, "pool": pool, "family": draw(st.sampled_from(["tcp", "tcp", "unix", "unix", "unix-abstract"])), "clients": clients}
+    return {"kind": kind, "pool": pool, "family": draw(st.sampled_from(["tcp", "tcp", "unix", "unix", "unix-abstract"])), "clients": clients,
+            "notif_pool": draw(st.integers(0, 3)) == 0}
 
 
 def oracle_workload(case):
@@ -382,6 +410,8 @@ def oracle_workload(case):
         w = Workload(case["kind"], case["pool"], case["family"])
     except Hang:
         raise Skip()
+    if case.get("notif_pool"):
+        w.add_notification_pool()
     w.serve()
     errors, sent_marks, sent_echo, sent_boom = [], [], [], []
     threads = [threading.Thread(target=client_run, args=(w, i, kinds, errors, sent_marks, sent_echo, 30, sent_boom), daemon=True)
@@ -396,9 +426,15 @@ def oracle_workload(case):
             deadline = min(deadline, time.time() + 1.5)
     hung = [i for i, t in enumerate(threads) if t.is_alive()]
     serving = w.thread is not None and w.thread.is_alive()
-    # give pooled notifications (inline anyway) a moment; then stop
+    # notifications handed to a notification pool are run by it: wait for them; then stop
+    if w.notif_pool is not None and not hung:
+        w.notif_pool.join(15)
     try:
-        stop_server(w, True, "after-workload")
+        try:
+            stop_server(w, True, "after-workload")
+        finally:
+            if not hung:
+                w.stop_notification_pool()
     except Skip:
         if not hung:
             raise
@@ -429,6 +465,8 @@ def oracle_workload(case):
                "clients:%d" % min(len(case["clients"]), 8)]
     if "invalid" in kinds or any(k.startswith("boom") for k in kinds):
         classes.append("bad-request-then-good")
+    if case.get("notif_pool"):
+        classes.append("with-notification-pool")
     if any(k.startswith("abort") for k in kinds):
         classes.append("client-goes-away")
     if any(k.endswith("-kw") for k in kinds):
